@@ -416,6 +416,30 @@ def followRedirects (cur : Scheme) : List Scheme → Scheme × Option Nat
       let (f, r) := followRedirects s rest
       (f, r.map (· + 1))
 
+/-- where the client takes the key of its INCOMING context from after a successful secure SETUP
+(`doSetup`): its own outgoing key and MKI when the server asked for client-managed keys (463 "Key
+Management Failure" on the first attempt), else the first of: KeyMgmt header of the response,
+key-mgmt attribute of the media, key-mgmt attribute of the session; none of them: SETUP fails. -/
+inductive KeySource where
+  | own | response | mediaSdp | sessionSdp | missing
+deriving DecidableEq, Repr
+
+def clientInKeySource (clientManaged inResponse inMedia inSession : Bool) : KeySource :=
+  if clientManaged then .own
+  else if inResponse then .response
+  else if inMedia then .mediaSdp
+  else if inSession then .sessionSdp
+  else .missing
+
+/-- the client's incoming context: `none` = SETUP returns an error -/
+def clientInCtx (src : KeySource) (own : Ctx) (resp media sess : Option Message) (now : Int) : Option Ctx :=
+  match src with
+  | .own => initCtx own.key own.mki [] []
+  | .response => resp.bind fun m => (mikeyToContext m now).toOption
+  | .mediaSdp => media.bind fun m => (mikeyToContext m now).toOption
+  | .sessionSdp => sess.bind fun m => (mikeyToContext m now).toOption
+  | .missing => none
+
 /-- `secure` of `doAnnounce` -/
 def announceSecure (scheme : Scheme) (cfgProto : Option SessProto) (anyMediaSecure : Bool) : Bool :=
   if cfgProto = some .tcp ∧ scheme = .rtsps then anyMediaSecure else scheme = .rtsps
